@@ -336,8 +336,15 @@ pub fn gen_tileset(rng: &mut Rng, opts: &GenOpts) -> TileSet {
 	let dup_mode = rng.below(4); // 0 none, 1 some, 2 many, 3 all-same
 	let big_budget = std::cell::Cell::new(if opts.allow_big { 3 } else { 1 });
 	let mut tiles = BTreeMap::new();
+	let mut last_raw: Vec<u8> = vec![];
 	for (z, x, y) in coords {
-		let raw: Vec<u8> = if !opts.unique_payloads && (dup_mode == 3 || (dup_mode == 2 && rng.chance(0.6)) || (dup_mode == 1 && rng.chance(0.15))) {
+		let raw: Vec<u8> = if !opts.unique_payloads && !opts.really_compress && last_raw.len() >= 8 && rng.chance(0.05) {
+			// a payload that is a proper slice of the previous tile's payload (a space-saving encoder may store it
+			// as a byte range inside the other blob)
+			let a = rng.usize_below(last_raw.len() / 2);
+			let b = a + 1 + rng.usize_below(last_raw.len() - a - 1);
+			last_raw[a..b].to_vec()
+		} else if !opts.unique_payloads && (dup_mode == 3 || (dup_mode == 2 && rng.chance(0.6)) || (dup_mode == 1 && rng.chance(0.15))) {
 			if dup_mode == 3 {
 				dup_pool[1].clone()
 			} else {
@@ -363,6 +370,7 @@ pub fn gen_tileset(rng: &mut Rng, opts: &GenOpts) -> TileSet {
 				}
 			}
 		};
+		last_raw = raw.clone();
 		let stored = if opts.really_compress { comp::compress(&raw, comp) } else { raw };
 		tiles.insert((z, x, y), stored);
 	}
